@@ -388,7 +388,11 @@ func (c *GroupCoordinator) OffsetCommit(ctx context.Context, req *kmsg.OffsetCom
 	} else if req.Generation != state.generationID {
 		groupErr = protocol.ILLEGAL_GENERATION
 	}
-	c.mu.Unlock()
+	// Keep the coordinator lock until the offsets are written (as the group
+	// state writes do): released here, a commit validated against generation g
+	// could reach the store after the member was fenced and its successor had
+	// committed, moving the committed offset back to a fenced member's value.
+	defer c.mu.Unlock()
 
 	resp := kmsg.NewPtrOffsetCommitResponse()
 	resp.Topics = make([]kmsg.OffsetCommitResponseTopic, 0, len(req.Topics))
